@@ -110,6 +110,18 @@ def make_inputs(rng, n):
             for g in group:
                 out.append((level, g, len(g.split()), 'twin', 'whitespace-twin'))
             continue
+        if level in ('predicate', 'condition', 'expression') and rng.random() < 0.04:
+            # legal number spellings at the edge of what the host language converts: overflowing exponents, denormals,
+            # digit strings beyond the interpreter's int() limit
+            lit = gen.pick(rng, ('1e309', '2E400', '1e-400', '0.1e310', '9' * 4301, '1' + '0' * 400, '1e308', '4.9e-324'))
+            body = toks[1:-1] if level == 'predicate' else toks
+            tk = body + ['and', 'qnum', gen.pick(rng, ('<', '=', '>=')), lit]
+            if rng.random() < 0.3:
+                tk = body + ['and', 'qarr', '[', lit, ']', '>', '0']
+            if level == 'predicate':
+                tk = ['{'] + tk + ['}']
+            out.append((level, A.layout(tk), len(tk), 'numeric-extreme', 'numeric-extreme'))
+            continue
         if level in ('specification', 'property') and rng.random() < 0.06:
             # a repeated annotation key, with and without an id before it
             key = gen.pick(rng, ('title', 'description', 'id'))
